@@ -235,6 +235,13 @@ func escapeAttributeAmpersands(content string) string {
 
 		switch c {
 		case '<':
+			// Comments and CDATA sections are not markup: a quote in them does not open an
+			// attribute value, and their text is left exactly as written.
+			if end := nonMarkupEnd(content, i); end > i {
+				out.WriteString(content[i:end])
+				i = end - 1
+				continue
+			}
 			inTag = true
 		case '>':
 			inTag = false
@@ -247,6 +254,20 @@ func escapeAttributeAmpersands(content string) string {
 	}
 
 	return out.String()
+}
+
+// nonMarkupEnd returns the index just after the comment or CDATA section that starts at i
+// (the end of the content when it is not terminated), or i when neither starts there.
+func nonMarkupEnd(content string, i int) int {
+	for _, d := range [...][2]string{{"<!--", "-->"}, {cdataStart, cdataEnd}} {
+		if strings.HasPrefix(content[i:], d[0]) {
+			if end := strings.Index(content[i+len(d[0]):], d[1]); end >= 0 {
+				return i + len(d[0]) + end + len(d[1])
+			}
+			return len(content)
+		}
+	}
+	return i
 }
 
 // escapeAmperands escapes ampersands that aren't part of valid HTML entities.
